@@ -1,6 +1,6 @@
 (* Property C19 -- newer-strategy databases accept every write; the most recently issued change wins; replicas agree *)
 (* Statements only: each theorem restates the proved lemma's statement and is closed by [exact]. *)
-From NunDB Require Import Model.Base Model.Pending Model.Parse Model.Node Proofs.DbProofs Model.Sched Proofs.SchedProofs Proofs.ClusterProofs Proofs.NewerReplicaProofs.
+From NunDB Require Import Model.Base Model.Pending Model.Parse Model.Node Proofs.DbProofs Model.Sched Proofs.SchedProofs Proofs.ClusterProofs Proofs.NewerReplicaProofs Proofs.NewerRaceProofs.
 Local Open Scope Z_scope.
 
 (* no versioned write is refused; the reply names the value now stored; the version never decreases; other keys untouched *)
@@ -414,3 +414,90 @@ Theorem C19_newer_replicas_example :
             dbrel e1 e2 /\ get_key_value_new e1 "k" = ("z", 8) /\ get_key_value_new e2 "k" = ("z", 8)).
 Proof. exact newer_replicas_example. Qed.
 Print Assumptions C19_newer_replicas_example.
+
+(* the cause of the known finding: the second critical section of the resolution path stores its value whatever op id the stored entry carries (no hypothesis on op ids or strategy) *)
+Theorem C19_resolving_write_unchecked :
+  forall (n : node) (t : thr) (dbn key value0 : str) (ver : Z) (opp : N) (orig : Z) (d : db),
+         t_pc t = PcSetWrite dbn key value0 ver opp true orig ->
+         get_db n dbn = Some d ->
+         (forall old : value, get_value d key = Some old -> v_ver old <> -2 /\ v_ver old < i32_max) ->
+         exists (d1 : db) (nw : value),
+           get_db (fst (release n t)) dbn = Some d1 /\
+           get_value d1 key = Some nw /\
+           v_val nw = value0 /\
+           v_opp nw = opp /\
+           (forall k : str, k <> key -> get_value d1 k = get_value d k) /\
+           (exists nv : Z, t_pc (snd (release n t)) = PcNotify dbn key value0 nv (RqSet key value0 orig)) /\
+           t_replies (snd (release n t)) = t_replies t.
+Proof. exact resolving_write_unchecked. Qed.
+Print Assumptions C19_resolving_write_unchecked.
+
+(* REFUTED (known finding), witness 1: the change issued first (op id 12 < 14) decides its resolution, the later change is stored, the first is re-applied over it *)
+Theorem C19_newer_resolution_overwrites :
+  let mid := run_schedule nr_node (nr_ts "a") (firstn 5 sched_overwrite) in
+         let mid2 := run_schedule nr_node (nr_ts "a") (firstn 7 sched_overwrite) in
+         let fin := run_schedule nr_node (nr_ts "a") sched_overwrite in
+         map t_pc (snd (run_schedule nr_node (nr_ts "a") (firstn 2 sched_overwrite))) =
+         [PcSetWrite "d1" "a" "x1" 0 12 false 0; PcCmd] /\
+         map t_pc (snd mid) = [PcSetWrite "d1" "a" "x1" 1 13 true 0; PcSetWrite "d1" "a" "y1" 0 14 false 0] /\
+         (12 < 14)%N /\
+         nr_val (fst mid) "a" = Some "i1" /\
+         nr_look (fst mid2) "a" =
+         Some {| v_val := "y1"; v_ver := 2; v_opp := 15; v_st := VNew; v_vaddr := 0; v_kaddr := 0 |} /\
+         map (fun t : thr => pc_resolving (t_pc t)) (snd mid2) = [true; false] /\
+         map t_pc (snd fin) = [PcDone; PcDone] /\
+         map t_replies (snd fin) = [[ROk]; [ROk]] /\
+         nr_look (fst fin) "a" =
+         Some {| v_val := "x1"; v_ver := 3; v_opp := 13; v_st := VNew; v_vaddr := 0; v_kaddr := 0 |} /\
+         map t_trace (snd fin) =
+         [["cmd"; "map.read"; "map.write"; "map.write"; "watchers.read"];
+          ["cmd"; "map.read"; "map.write"; "map.write"; "watchers.read"]] /\
+         run_par nr_node (nr_ts "a") sched_overwrite = fin.
+Proof. exact newer_resolution_overwrites. Qed.
+Print Assumptions C19_newer_resolution_overwrites.
+
+(* REFUTED (known finding), witness 2: the resolution re-stamps the first change with a fresh op id (14 > 13), so the change issued later looks stale and is dropped *)
+Theorem C19_newer_resolution_restamps :
+  let mid := run_schedule nr_node (nr_ts "a") (firstn 4 sched_restamp) in
+         let mid2 := run_schedule nr_node (nr_ts "a") (firstn 7 sched_restamp) in
+         let mid3 := run_schedule nr_node (nr_ts "a") (firstn 8 sched_restamp) in
+         let fin := run_schedule nr_node (nr_ts "a") sched_restamp in
+         map t_pc (snd mid) = [PcSetWrite "d1" "a" "x1" 0 12 false 0; PcSetWrite "d1" "a" "y1" 0 13 false 0] /\
+         (12 < 13)%N /\
+         map t_pc (snd mid2) = [PcDone; PcSetWrite "d1" "a" "y1" 0 13 false 0] /\
+         nr_look (fst mid2) "a" =
+         Some {| v_val := "x1"; v_ver := 2; v_opp := 14; v_st := VNew; v_vaddr := 0; v_kaddr := 0 |} /\
+         (13 < 14)%N /\
+         map t_pc (snd mid3) = [PcDone; PcDone] /\
+         fin = mid3 /\
+         map t_replies (snd fin) = [[ROk]; [ROk]] /\
+         nr_look (fst fin) "a" =
+         Some {| v_val := "x1"; v_ver := 2; v_opp := 14; v_st := VNew; v_vaddr := 0; v_kaddr := 0 |} /\
+         map t_trace (snd fin) =
+         [["cmd"; "map.read"; "map.write"; "map.write"; "watchers.read"]; ["cmd"; "map.read"; "map.write"]] /\
+         run_par nr_node (nr_ts "a") sched_restamp = fin.
+Proof. exact newer_resolution_restamps. Qed.
+Print Assumptions C19_newer_resolution_restamps.
+
+(* BOUNDED (this program, all 252 interleavings of 5+5 releases): on a key that does not exist yet the change issued last is always the one stored *)
+Theorem C19_newer_new_key_all_schedules :
+  Datatypes.length all_schedules = 252%nat /\
+         (forall s : list nat, In s all_schedules -> sched_outcome "b" s true).
+Proof. exact newer_new_key_all_schedules. Qed.
+Print Assumptions C19_newer_new_key_all_schedules.
+
+(* BOUNDED (same program on an existing key): 84 of the 252 interleavings store the change issued first, both witnesses among them *)
+Theorem C19_newer_existing_key_count :
+  Datatypes.length (filter (first_issued_stored "a") all_schedules) = 84%nat /\
+         Datatypes.length (filter (last_issued_stored "a") all_schedules) = 168%nat /\
+         In sched_overwrite (filter (first_issued_stored "a") all_schedules) /\
+         In sched_restamp (filter (first_issued_stored "a") all_schedules) /\
+         Datatypes.length (filter (first_issued_stored "b") all_schedules) = 0%nat.
+Proof. exact newer_existing_key_count. Qed.
+Print Assumptions C19_newer_existing_key_count.
+
+(* BOUNDED: on the existing key every interleaving still ends with both writes answered Ok and one of the two values stored *)
+Theorem C19_newer_existing_key_all_schedules :
+  forall s : list nat, In s all_schedules -> sched_outcome "a" s (negb (first_issued_stored "a" s)).
+Proof. exact newer_existing_key_all_schedules. Qed.
+Print Assumptions C19_newer_existing_key_all_schedules.
